@@ -162,6 +162,15 @@ func buildItems(a *alphabet, thorough bool) []item {
 	return items
 }
 
+func letterNames(ls []*letter) []string {
+	out := make([]string, len(ls))
+	for i, l := range ls {
+		out[i] = l.Name
+	}
+
+	return out
+}
+
 func containsLetter(set []*letter, l *letter) bool {
 	for _, x := range set {
 		if x == l {
@@ -179,6 +188,7 @@ type framerH struct {
 	conn    sconn
 	bufs    map[int][]byte
 	evals   int64
+	reads   int64 // socket Read calls made by the code under test
 	classes map[string]int64
 	seen    map[string]int
 	trace   func(string, ...any)
@@ -326,6 +336,7 @@ type framerReplay struct {
 func (h *framerH) eval(st *stream, cuts []int, bufSize int, kind string) {
 	h.evals++
 	sig, detail := h.runOne(st, cuts, h.bufs[bufSize])
+	h.reads += int64(h.conn.reads)
 	if sig == "" {
 		return
 	}
@@ -491,6 +502,7 @@ func TestC10Framer(t *testing.T) {
 			break
 		}
 		t0, e0 := time.Now(), h.evals
+		rep.Current(map[string]any{"test": "framer", "work_item": x, "frames": letterNames(items[x].ls), "mode": modeNames[items[x].mode]})
 		if err := h.runItem(items[x]); err != nil {
 			t.Fatalf("harness self-check failed: %v", err)
 		}
@@ -507,10 +519,13 @@ func TestC10Framer(t *testing.T) {
 		r.Classes[k] += v
 	}
 	for k, v := range modeWall {
-		r.Extra["framer_wall_s:"+k] = v
+		r.Extra["framer_wall_s_summed_over_shards:"+k] = v
 		r.Extra["framer_evaluations:"+k] = modeEvals[k]
 	}
-	r.Extra["framer_work_items_total"] = len(items)
+	r.Extra["framer_socket_reads"] = h.reads
+	if shard == 0 { // numeric extras are summed over the shards by the runner
+		r.Extra["framer_work_items_total"] = len(items)
+	}
 	r.Extra["framer_work_items_done"] = done
 	if shard == 0 {
 		r.Note("framer alphabet: %d small letters, %d large letters, %d invalid tails; %d work items", len(a.small), len(a.large), len(a.tails), len(items))
